@@ -139,7 +139,12 @@ func (ro *Roles) slotEnd(r *Report, rule string) {
 	// who stores Completed = true
 	for _, fn := range ro.rootFuncs() {
 		for _, st := range ro.storesTo(fn, "PipelineJob.Completed", func(s *ssa.Store) bool { return !isBoolConst(s.Val, false) }) {
-			r.Check(fn == ro.Completed, rule+".who-completes", FuncName(fn)+": Completed = true", w.InstrPos(st), "only the completion handler marks a job completed", "a job is marked completed outside the completion handler: its slot is freed while its scheduler may still run tasks")
+			okWho := fn == ro.Completed
+			if !okWho { // a helper of the completion handler with no other caller
+				hosts, other := ro.hostsOf(fn)
+				okWho = !other && len(hosts) == 1 && hosts[0] == ro.Completed
+			}
+			r.Check(okWho, rule+".who-completes", FuncName(fn)+": Completed = true", w.InstrPos(st), "only the completion handler marks a job completed", "a job is marked completed outside the completion handler: its slot is freed while its scheduler may still run tasks")
 		}
 	}
 	// the completion handler is called only by the start goroutine, after Schedule returned, with its result
